@@ -734,6 +734,13 @@ static int drv_watch(int argc, char** argv) {
           std::string tmp = dir + "/tmp." + std::to_string(rng());
           write_file(tmp, op["text"].asString());
           ::rename(tmp.c_str(), f.c_str());
+        } else if (o == "link_in") {
+          // published with link(2) (ln, or O_TMPFILE + linkat): the name appears complete, without a write or rename event
+          std::string tmp = dir + "/lnk." + std::to_string(rng());
+          write_file(tmp, op["text"].asString());
+          ::unlink(f.c_str());
+          (void)!::link(tmp.c_str(), f.c_str());
+          ::unlink(tmp.c_str());
         } else if (o == "rename_out") {
           std::string tmp = dir + "/out." + std::to_string(rng());
           ::rename(f.c_str(), tmp.c_str());
